@@ -273,7 +273,7 @@ def build_value(d):
 
 
 # every kind of original error: the message must render and end the text
-N_MESSAGE = 24 + 5 * 4 * 3 + 1 + 5 + 5 + 5 + 5
+N_MESSAGE = 26 + 5 * 4 * 3 + 1 + 5 + 5 + 5 + 5
 
 
 def message_cases():
@@ -315,6 +315,9 @@ def message_cases():
         # a callable that runs a nested glom, logs (stringifies) its error and lets it propagate
         ('nested-logged', {'a': {'x': {}}}, ('a', _logging_nested)),
         ('nested-plain', {'a': {'x': {}}}, ('a', _plain_nested)),
+        # F40: original errors whose class brings a __str__ of its own (KeyError, the OSError family)
+        ('callable-keyerror', {'a': 1}, ('a', lambda t: {}['k'])),
+        ('callable-oserror', {'a': 1}, ('a', lambda t: open('/nonexistent/zz/file'))),
     ] + guard_cases() + note_cases() + depth_cases() + recovered_cases() + falsy_cases()
 
 
